@@ -97,8 +97,8 @@ lemma('spec/magic-is-bitwise-complement', ['C02'], _complement, 'for 32-bit c: ~
 def _constants(z3, SF, V):
     """The real constants.py (executed, not transcribed): for each of the 7 IDS, ID_TO_WIRE[c] is the little-endian word of c,
     WIRE_TO_ID is its inverse, the wire values are pairwise distinct; MESSAGE_FORMAT/MESSAGE_SIZE describe six 32-bit words."""
-    import importlib
-    C = importlib.import_module('adb_shell.constants')
+    from pyvc import dsl
+    C = dsl.CONSTANTS
     cl = []
     cl.append(z3.BoolVal(tuple(C.IDS) == (b'AUTH', b'CLSE', b'CNXN', b'OKAY', b'OPEN', b'SYNC', b'WRTE')))
     cl.append(z3.BoolVal(set(C.ID_TO_WIRE) == set(C.IDS) and len(set(C.ID_TO_WIRE.values())) == 7))
